@@ -497,3 +497,222 @@ pub proof fn lemma_ctr_layout_resume(iv: Seq<u8>, i: int, j: int, wb: nat, be: b
         assert((v1 + j) % m == (f + i + j) % m);
     }
 }
+
+// ---------- C01 for ciphertext stealing, whole message: decrypting the CBC-CSx encryption of (ps, tail) gives back
+// flatg(ps) + tail.  (cps, ct) is the cut of the ciphertext into full blocks and tail (unique: chunking_unique). ----------
+pub proof fn lemma_cbc_dec_prefix(e: spec_fn(Blk) -> Blk, d: spec_fn(Blk) -> Blk, b: nat, iv: Blk, ps: Seq<Blk>, k: int)
+    requires
+        inverse_of(d, e), len_preserving(e), iv.len() == b, 0 <= k <= ps.len(),
+        forall |i: int| 0 <= i < ps.len() ==> (#[trigger] ps[i]).len() == b,
+    ensures
+        cbc_dec_chain(d, iv, cbc_chain(e, iv, ps).take(k)) == ps.take(k),
+        cbc_chain(e, iv, ps).len() == ps.len(),
+        forall |i: int| 0 <= i < ps.len() ==> (#[trigger] cbc_chain(e, iv, ps)[i]).len() == b,
+        forall |i: int| 0 <= i < ps.len() ==> #[trigger] cbc_chain(e, iv, ps)[i] == e(xor_seq(ps[i], if i == 0 { iv } else { cbc_chain(e, iv, ps)[i - 1] })),
+{
+    let enc = cbc_enc_step(e); let dec = cbc_dec_step(d);
+    let cs = cbc_chain(e, iv, ps);
+    lemma_cbc_roundtrip(e, d, b, seq![iv], ps);
+    run_len(enc, seq![iv], ps);
+    lemma_run_prefix(dec, seq![iv], cs.take(k), cs.skip(k));
+    assert(cs.take(k) + cs.skip(k) =~= cs);
+    cbc_c_is_run(e, iv, ps);
+    assert forall |i: int| 0 <= i < ps.len() implies (#[trigger] cs[i]).len() == b by {
+        assert(cs[i] == cbc_c(e, iv, ps, i));
+        lemma_xor_len(ps[i], cbc_c(e, iv, ps, i - 1));
+    }
+    assert forall |i: int| 0 <= i < ps.len() implies #[trigger] cs[i] == e(xor_seq(ps[i], if i == 0 { iv } else { cs[i - 1] })) by {
+        assert(cs[i] == cbc_c(e, iv, ps, i));
+        if i > 0 { assert(cs[i - 1] == cbc_c(e, iv, ps, i - 1)); }
+    }
+}
+
+pub proof fn lemma_cbc_cs_roundtrip(variant: int, e: spec_fn(Blk) -> Blk, d: spec_fn(Blk) -> Blk, b: nat, iv: Blk, ps: Seq<Blk>, tail: Seq<u8>,
+                                   cps: Seq<Blk>, ct: Seq<u8>)
+    requires
+        1 <= variant <= 3, b >= 1,
+        inverse_of(d, e), len_preserving(e), len_preserving(d), iv.len() == b,
+        ps.len() >= 1, tail.len() < b,
+        forall |i: int| 0 <= i < ps.len() ==> (#[trigger] ps[i]).len() == b,
+        is_chunking(cbc_cs_enc(variant, e, iv, ps, tail), b, cps, ct),
+    ensures
+        cbc_cs_dec(variant, d, iv, cps, ct) == flatg(ps) + tail,
+{
+    let n = ps.len() as int;
+    let dl = tail.len() as int;
+    let cs = cbc_chain(e, iv, ps);
+    lemma_cbc_dec_prefix(e, d, b, iv, ps, n);
+    let m = cbc_cs_enc(variant, e, iv, ps, tail);
+    assert(cs.take(n) =~= cs);
+    assert(ps.take(n) =~= ps);
+    if dl == 0 {
+        assert(tail =~= Seq::<u8>::empty());
+        assert(flatg(ps) + tail =~= flatg(ps));
+        if variant == 3 && n >= 2 {
+            // ciphertext = head ++ C_n ++ C_{n-1}: all whole blocks
+            let head = cs.take(n - 2);
+            let mine = head.push(cs[n - 1]).push(cs[n - 2]);
+            flatg_push(head, cs[n - 1]);
+            flatg_push(head.push(cs[n - 1]), cs[n - 2]);
+            assert(flatg(mine) + Seq::<u8>::empty() =~= m);
+            assert forall |i: int| 0 <= i < mine.len() implies (#[trigger] mine[i]).len() == b by {
+                if i < n - 2 { assert(mine[i] == cs[i]); }
+            }
+            chunking_unique(m, b, cps, ct, mine, Seq::<u8>::empty());
+            // decrypt: head as plain CBC, then the exchanged pair through the tail formula with C* = C_{n-1} (full length)
+            lemma_cbc_dec_prefix(e, d, b, iv, ps, n - 2);
+            assert(cps.take(n - 2) =~= head);
+            let prev = if n - 2 == 0 { iv } else { cs[n - 3] };
+            assert(cs[n - 2] == e(xor_seq(ps[n - 2], prev)));
+            assert(cs[n - 1] == e(xor_seq(ps[n - 1], cs[n - 2])));
+            let c_star = cs[n - 2]; let c_n = cs[n - 1];
+            let z = d(c_n);
+            assert(z == xor_seq(ps[n - 1], cs[n - 2]));
+            lemma_xor_len(ps[n - 1], cs[n - 2]);
+            assert(c_star + z.skip(b as int) =~= c_star);
+            xor_cancel(ps[n - 2], prev);
+            xor_cancel(ps[n - 1], cs[n - 2]);
+            assert(xor_seq(z, c_star).take(b as int) =~= ps[n - 1]);
+            assert(cbc_cs_dec_tail(d, prev, c_star, c_n) == ps[n - 2] + ps[n - 1]);
+            // glue
+            let hp = ps.take(n - 2);
+            assert(ps =~= hp.push(ps[n - 2]).push(ps[n - 1]));
+            flatg_push(hp, ps[n - 2]);
+            flatg_push(hp.push(ps[n - 2]), ps[n - 1]);
+            assert(flatg(hp) + (ps[n - 2] + ps[n - 1]) =~= flatg(hp) + ps[n - 2] + ps[n - 1]);
+            if head.len() > 0 { assert(head[head.len() - 1] == cs[n - 3]); }
+        } else {
+            assert(flatg(cs) + Seq::<u8>::empty() =~= m);
+            chunking_unique(m, b, cps, ct, cs, Seq::<u8>::empty());
+        }
+    } else {
+        let prevc = cs[n - 1];
+        let c_last = e(xor_seq(pad0(tail, b), prevc));
+        lemma_xor_len(pad0(tail, b), prevc);
+        let star = prevc.take(dl);
+        let head = cs.take(n - 1);
+        lemma_cbc_dec_prefix(e, d, b, iv, ps, n - 1);
+        let prev = if n - 1 == 0 { iv } else { cs[n - 2] };
+        assert(prevc == e(xor_seq(ps[n - 1], prev)));
+        lemma_cbc_cs_tail_inverts(e, d, b, prev, prevc, ps[n - 1], tail);
+        let hp = ps.take(n - 1);
+        assert(ps =~= hp.push(ps[n - 1]));
+        flatg_push(hp, ps[n - 1]);
+        assert(flatg(hp) + (ps[n - 1] + tail) =~= flatg(hp) + ps[n - 1] + tail);
+        if head.len() > 0 { assert(head[head.len() - 1] == cs[n - 2]); }
+        if variant == 1 {
+            let x = star + c_last;
+            let mine = head.push(x.take(b as int));
+            let mt = x.skip(b as int);
+            flatg_push(head, x.take(b as int));
+            assert(x.take(b as int) + x.skip(b as int) =~= x);
+            assert(flatg(mine) + mt =~= m) by { assert(flatg(head) + x.take(b as int) + mt =~= flatg(head) + star + c_last); }
+            assert forall |i: int| 0 <= i < mine.len() implies (#[trigger] mine[i]).len() == b by {
+                if i < n - 1 { assert(mine[i] == cs[i]); }
+            }
+            chunking_unique(m, b, cps, ct, mine, mt);
+            assert(cps.take(n - 1) =~= head);
+            let xx = cps[n - 1] + ct;
+            assert(xx =~= x);
+            assert(xx.take(dl) =~= star);
+            assert(xx.skip(dl) =~= c_last);
+        } else {
+            let mine = head.push(c_last);
+            flatg_push(head, c_last);
+            assert(flatg(mine) + star =~= m);
+            assert forall |i: int| 0 <= i < mine.len() implies (#[trigger] mine[i]).len() == b by {
+                if i < n - 1 { assert(mine[i] == cs[i]); }
+            }
+            chunking_unique(m, b, cps, ct, mine, star);
+            assert(cps.take(n - 1) =~= head);
+        }
+    }
+}
+
+pub proof fn lemma_ecb_cs_roundtrip(variant: int, e: spec_fn(Blk) -> Blk, d: spec_fn(Blk) -> Blk, b: nat, ps: Seq<Blk>, tail: Seq<u8>,
+                                   cps: Seq<Blk>, ct: Seq<u8>)
+    requires
+        1 <= variant <= 3, b >= 1,
+        inverse_of(d, e), len_preserving(e), len_preserving(d),
+        ps.len() >= 1, tail.len() < b,
+        forall |i: int| 0 <= i < ps.len() ==> (#[trigger] ps[i]).len() == b,
+        is_chunking(ecb_cs_enc(variant, e, b, ps, tail), b, cps, ct),
+    ensures
+        ecb_cs_dec(variant, d, cps, ct) == flatg(ps) + tail,
+{
+    let n = ps.len() as int;
+    let dl = tail.len() as int;
+    let cs = ecb_map(e, ps);
+    let m = ecb_cs_enc(variant, e, b, ps, tail);
+    assert forall |i: int| 0 <= i < n implies (#[trigger] cs[i]).len() == b by {}
+    assert(ecb_map(d, cs) =~= ps);
+    if dl == 0 {
+        assert(tail =~= Seq::<u8>::empty());
+        assert(flatg(ps) + tail =~= flatg(ps));
+        if variant == 3 && n >= 2 {
+            let head = cs.take(n - 2);
+            let mine = head.push(cs[n - 1]).push(cs[n - 2]);
+            flatg_push(head, cs[n - 1]);
+            flatg_push(head.push(cs[n - 1]), cs[n - 2]);
+            assert(flatg(mine) + Seq::<u8>::empty() =~= m);
+            assert forall |i: int| 0 <= i < mine.len() implies (#[trigger] mine[i]).len() == b by {
+                if i < n - 2 { assert(mine[i] == cs[i]); }
+            }
+            chunking_unique(m, b, cps, ct, mine, Seq::<u8>::empty());
+            assert(cps.take(n - 2) =~= head);
+            assert(ecb_map(d, head) =~= ps.take(n - 2));
+            let c_star = cs[n - 2]; let c_n = cs[n - 1];
+            let z = d(c_n);
+            assert(z == ps[n - 1]);
+            assert(c_star + z.skip(b as int) =~= c_star);
+            assert(z.take(b as int) =~= ps[n - 1]);
+            assert(ecb_cs_dec_tail(d, c_star, c_n) == ps[n - 2] + ps[n - 1]);
+            let hp = ps.take(n - 2);
+            assert(ps =~= hp.push(ps[n - 2]).push(ps[n - 1]));
+            flatg_push(hp, ps[n - 2]);
+            flatg_push(hp.push(ps[n - 2]), ps[n - 1]);
+            assert(flatg(hp) + (ps[n - 2] + ps[n - 1]) =~= flatg(hp) + ps[n - 2] + ps[n - 1]);
+        } else {
+            assert(flatg(cs) + Seq::<u8>::empty() =~= m);
+            chunking_unique(m, b, cps, ct, cs, Seq::<u8>::empty());
+        }
+    } else {
+        let prevc = cs[n - 1];
+        let c_last = e(tail + prevc.skip(dl));
+        assert((tail + prevc.skip(dl)).len() == b);
+        let star = prevc.take(dl);
+        let head = cs.take(n - 1);
+        assert(ecb_map(d, head) =~= ps.take(n - 1));
+        lemma_ecb_cs_tail_inverts(e, d, b, prevc, ps[n - 1], tail);
+        let hp = ps.take(n - 1);
+        assert(ps =~= hp.push(ps[n - 1]));
+        flatg_push(hp, ps[n - 1]);
+        assert(flatg(hp) + (ps[n - 1] + tail) =~= flatg(hp) + ps[n - 1] + tail);
+        if variant == 1 {
+            let x = star + c_last;
+            let mine = head.push(x.take(b as int));
+            let mt = x.skip(b as int);
+            flatg_push(head, x.take(b as int));
+            assert(x.take(b as int) + x.skip(b as int) =~= x);
+            assert(flatg(mine) + mt =~= m) by { assert(flatg(head) + x.take(b as int) + mt =~= flatg(head) + star + c_last); }
+            assert forall |i: int| 0 <= i < mine.len() implies (#[trigger] mine[i]).len() == b by {
+                if i < n - 1 { assert(mine[i] == cs[i]); }
+            }
+            chunking_unique(m, b, cps, ct, mine, mt);
+            assert(cps.take(n - 1) =~= head);
+            let xx = cps[n - 1] + ct;
+            assert(xx =~= x);
+            assert(xx.take(dl) =~= star);
+            assert(xx.skip(dl) =~= c_last);
+        } else {
+            let mine = head.push(c_last);
+            flatg_push(head, c_last);
+            assert(flatg(mine) + star =~= m);
+            assert forall |i: int| 0 <= i < mine.len() implies (#[trigger] mine[i]).len() == b by {
+                if i < n - 1 { assert(mine[i] == cs[i]); }
+            }
+            chunking_unique(m, b, cps, ct, mine, star);
+            assert(cps.take(n - 1) =~= head);
+        }
+    }
+}
